@@ -1417,6 +1417,11 @@ static void end_query(ares_channel_t *channel, ares_server_t *server,
 
   ares_metrics_record(query, server, status, dnsrec);
 
+  /* Remove the query from all channel indexes before invoking the callback.
+   * The callback is allowed to call ares_cancel(), which must not be able to
+   * find this query again, complete it a second time and free it. */
+  ares_detach_query(query);
+
   /* Invoke the callback. */
   query->callback(query->arg, status, query->timeouts, dnsrec);
   ares_free_query(query);
